@@ -18,6 +18,7 @@ TUPLES = [
     dict(a='(-1)**n', b='2**n', c='(-2)**n'), dict(x='5', y='n'), dict(x='4**n', y='(1/2)**n'), dict(x='8**n + 4**n', y='2**n'),
     dict(x='12**n', y='18**n', z='(1/2)**n', w='(1/3)**n'),
     # dependent bases met in non-ascending order (alignment of lattice columns with abstraction symbols), and multiplicities 2,3,5 (generation)
+    dict(x='6**n', y='180**n'), dict(x='12**n', y='150**n', z='n'),
     dict(x='4**n', y='2**n'), dict(x='8**n', y='2**n', z='4**n'), dict(x='4**n', y='8**n', z='32**n'), dict(x='32**n', y='4**n', z='8**n'),
 ]
 PROGRAMS = [
